@@ -78,6 +78,12 @@ SummarySpec(d) ==
     IN <<Len(d.nodes), Max({d.nodes[n].depth : n \in Ids(d)}),
          [i \in DOMAIN withSeeds |-> <<IF IsMinimalNode(d, withSeeds[i]) THEN 1 ELSE 0,
                                         d.nodes[withSeeds[i]].space, d.nodes[withSeeds[i]].seeds.v>>]>>
+SummaryMatches(exp, got) ==
+    /\ Len(got) = 3 /\ got[1] = exp[1] /\ got[2] = exp[2]
+    /\ Len(got[3]) = Len(exp[3])
+    /\ {<<got[3][i][1], got[3][i][2], SeqToSet(got[3][i][3])>> : i \in DOMAIN got[3]}
+         = {<<exp[3][i][1], exp[3][i][2], SeqToSet(exp[3][i][3])>> : i \in DOMAIN exp[3]}
+    /\ \A i \in DOMAIN got[3] : Len(got[3][i][3]) = Cardinality(SeqToSet(got[3][i][3]))
 SubgraphSpec(a, b) ==
     \A n \in {x \in Ids(a) : a.nodes[x].expanded} :
         /\ \E m \in Ids(b) : b.nodes[m].space = a.nodes[n].space
@@ -105,6 +111,7 @@ Expected(d, e, got) ==
       [] e.op = "reclaim" -> Res(Reclaim(d), "ok")
       [] e.op = "pickle"  -> Res(d, "ok")
       [] e.op = "noop"    -> Res(d, "ok")
+      [] e.op = "setcfg"  -> Res(d, "ok")
       [] e.op = "find"    -> Res(d, ToString(FindSpec(d, e.target)))
       [] e.op = "summary" -> [Res(d, "ok") EXCEPT !.out = SummarySpec(d)]
       [] e.op = "cmp"     -> [Res(d, "ok") EXCEPT !.out = CmpSpec(d, FromProj(e.other))]
@@ -186,7 +193,9 @@ Mismatch(x, got, e) ==
        \cup (IF x.ret = e.ret /\ (e.raised <=> x.ret = "error") THEN {} ELSE {"RET"})
        \cup (IF e.op \in {"cand", "seeds", "sets"} /\ ~e.raised /\ ~(e.op = "seeds" /\ e.fallback) /\ x.out # e.out
              THEN {"OUT"} ELSE {})
-       \cup (IF e.op \in {"find", "summary", "cmp"} /\ (e.raised \/ x.out # e.out \/ x.ret # e.ret) THEN {"QUERY"} ELSE {})
+       \cup (IF e.op \in {"find", "cmp"} /\ (e.raised \/ x.out # e.out \/ x.ret # e.ret) THEN {"QUERY"} ELSE {})
+       \* summary(): node count, depth, and one entry per node with known seeds (label, space, its seeds), in any order
+       \cup (IF e.op = "summary" /\ (e.raised \/ ~SummaryMatches(x.out, e.out)) THEN {"QUERY"} ELSE {})
        \cup (IF x.xl = e.xl THEN {} ELSE {"XL"})
        \cup (IF x.unsound THEN {"ORACLE"} ELSE {}))
     \cup (IF e.exc = "Hang" THEN {"HANG"} ELSE {})
@@ -195,7 +204,7 @@ Mismatch(x, got, e) ==
     \cup (IF WorkOK(e) THEN {} ELSE {"WORK"})
 
 PlainOp(e) == e.op \in {"new", "exp", "bfs", "dfs", "tgt", "aseeds", "cand", "seeds", "sets", "reclaim", "pickle",
-                         "control", "allseeds", "allsets", "expseeds", "noop", "find", "summary", "cmp"}
+                         "control", "allseeds", "allsets", "expseeds", "noop", "setcfg", "find", "summary", "cmp"}
               \/ (e.op = "min" /\ ~e.skip) \/ (e.op = "block" /\ ~e.optsrc)
 
 \* C01: the six complete strategies with default settings, started on a fresh diagram
